@@ -763,9 +763,10 @@ package base
 // once, logs the error under errLock, Done last ; Wait ; error iff some task failed.
 
 //@ func (*ConcStatement).Evaluate$1$1
-//@   props C18 C09
+//@   props C18 C09 C19
 //@   task joins wg
 //@   entry nolocks
+//@   guard eMsg by errLock
 //@   requires assignment != nil
 //@   ghost ran int = 0
 //@   ghost tfailed bool = false
@@ -806,9 +807,10 @@ package base
 //@   loop 0 decreases len(cs.Assignments) - rangeindex
 
 //@ func (*ConcStatement).Evaluate$2$1
-//@   props C18 C09
+//@   props C18 C09 C19
 //@   task joins wg
 //@   entry nolocks
+//@   guard eMsg by errLock
 //@   requires fun != nil
 //@   ghost ran int = 0
 //@   ghost tfailed bool = false
@@ -849,9 +851,10 @@ package base
 //@   loop 0 decreases len(cs.FunctionCalls) - rangeindex
 
 //@ func (*ConcStatement).Evaluate$3$1
-//@   props C18 C09
+//@   props C18 C09 C19
 //@   task joins wg
 //@   entry nolocks
+//@   guard eMsg by errLock
 //@   requires meth != nil
 //@   ghost ran int = 0
 //@   ghost tfailed bool = false
@@ -892,9 +895,10 @@ package base
 //@   loop 0 decreases len(cs.MethodCalls) - rangeindex
 
 //@ func (*ConcStatement).Evaluate$4$1
-//@   props C18 C09
+//@   props C18 C09 C19
 //@   task joins wg
 //@   entry nolocks
+//@   guard eMsg by errLock
 //@   requires tlc != nil
 //@   ghost ran int = 0
 //@   ghost tfailed bool = false
